@@ -85,7 +85,7 @@ theorem mu_step_fits {fx : Fixes} {cfg : Cfg} {sym lw : Nat} {st st' : St}
         have := (widthLeftF_ge_first (cfg := cfg) (lw := lw) (gs := gs) hforce).2
         omega
       | inr hf =>
-        have hfs := hf (style, gs) (by rw [hs]; simp)
+        have hfs : ∀ g ∈ gs, g.w + cfg.leftSym.w ≤ lw := hf (style, gs) (by rw [hs]; simp)
         rw [widthLeftF_fits hfs (by omega) (by omega)] at hw
         obtain ⟨g, hg, hgp⟩ := gsWidth_pos (gs := gs) (by omega)
         have := hfs g hg
@@ -108,7 +108,7 @@ theorem mu_step_fits {fx : Fixes} {cfg : Cfg} {sym lw : Nat} {st st' : St}
           cases hf with
           | inl hforce => exact (widthLeftF_ge_first (gs := g :: gs) hforce).1
           | inr hf =>
-            have hfs := hf (style, g :: gs) (by rw [hs]; simp)
+            have hfs : ∀ g' ∈ g :: gs, g'.w + cfg.leftSym.w ≤ lw := hf (style, g :: gs) (by rw [hs]; simp)
             rw [widthLeftF_fits hfs (by omega) (by omega)]
             have := hfs g (by simp)
             omega
@@ -203,13 +203,13 @@ structure Stuck (fx : Fixes) (cfg : Cfg) (lw : Nat) (st : St) : Prop where
   unlimited : effMax cfg lw = 0
   len0 : st.len = 0
   curr0 : st.curr = []
-  top : ∃ style g gs rest, st.stack = (style, g :: gs) :: rest ∧ lw < g.w + cfg.leftSym.w ∧
+  top : ∃ style g gs rest, st.stack = (style, g :: gs) :: rest ∧ 0 < g.w ∧ lw < g.w + cfg.leftSym.w ∧
         lw ≤ gsWidth (g :: gs) ∧
         ¬ (gsWidth (g :: gs) = lw ∧ PerfectRest fx rest)
 
 theorem stuck_step {fx : Fixes} {cfg : Cfg} {sym lw : Nat} {st : St} (h : Stuck fx cfg lw st) :
     ∃ row, step fx cfg sym lw st = .next { st with result := st.result ++ [row] } := by
-  obtain ⟨hfx, hu, h0, hc, style, g, gs, rest, hs, hwide, hge, hnf⟩ := h
+  obtain ⟨hfx, hu, h0, hc, style, g, gs, rest, hs, hgpos, hwide, hge, hnf⟩ := h
   unfold step
   rw [hs]
   simp only [hu, limitReached, h0, Nat.zero_add]
